@@ -76,6 +76,9 @@ Record prim_laws (P : prims) : Prop := {
   (* the backing array holds the whole blocks: asking for 16 bytes leaves the 32-byte key in memory *)
   scrypt_cap_blocks : forall pw salt N r p dklen, scrypt_pre N r p dklen = true ->
     scrypt_cap P pw salt N r p dklen = scrypt P pw salt N r p (round_up_32 dklen);
+  (* a slice is the prefix of its own backing array *)
+  scrypt_cap_prefix : forall pw salt N r p dklen, scrypt_pre N r p dklen = true ->
+    firstn (Z.to_nat dklen) (scrypt_cap P pw salt N r p dklen) = scrypt P pw salt N r p dklen;
   pbkdf2_len : forall pw salt c dklen, pbkdf2_pre c dklen = true ->
     length (pbkdf2 P pw salt c dklen) = Z.to_nat dklen;
   ctr_len : forall k iv x, length (aes_ctr P k iv x) = length x;
@@ -88,5 +91,32 @@ Record prim_laws (P : prims) : Prop := {
   (* a printed float64 converts to itself *)
   json_num_idem : forall l l', json_num P l = Some l' -> json_num P l' = Some l';
   uuid_roundtrip : forall u, length u = 16%nat -> uuid_parse P (uuid_string u) = Some u;
+  (* the textual form of RFC 4122 is accepted *)
+  uuid_parse_text : forall s, uuid_text_ok s = true -> uuid_parse P s <> None;
   uuid_parse_len : forall s u, uuid_parse P s = Some u -> length u = 16%nat
 }.
+
+(* the part of the laws that concerns the cryptographic primitives only (what the theorems about
+   creation and decryption use); a concrete instance is given in Keystore/Toy.v *)
+Record crypto_laws (P : prims) : Prop := {
+  cl_scrypt_len : forall pw salt N r p dklen, scrypt_pre N r p dklen = true ->
+    length (scrypt P pw salt N r p dklen) = Z.to_nat dklen;
+  cl_scrypt_cap_blocks : forall pw salt N r p dklen, scrypt_pre N r p dklen = true ->
+    scrypt_cap P pw salt N r p dklen = scrypt P pw salt N r p (round_up_32 dklen);
+  cl_scrypt_cap_prefix : forall pw salt N r p dklen, scrypt_pre N r p dklen = true ->
+    firstn (Z.to_nat dklen) (scrypt_cap P pw salt N r p dklen) = scrypt P pw salt N r p dklen;
+  cl_pbkdf2_len : forall pw salt c dklen, pbkdf2_pre c dklen = true ->
+    length (pbkdf2 P pw salt c dklen) = Z.to_nat dklen;
+  cl_ctr_involutive : forall k iv x, aes128_key_pre k = true -> ctr_iv_pre iv = true ->
+    aes_ctr P k iv (aes_ctr P k iv x) = x
+}.
+
+Lemma prim_laws_crypto (P : prims) : prim_laws P -> crypto_laws P.
+Proof.
+  intros L. constructor.
+  - apply (scrypt_len P L).
+  - apply (scrypt_cap_blocks P L).
+  - apply (scrypt_cap_prefix P L).
+  - apply (pbkdf2_len P L).
+  - apply (ctr_involutive P L).
+Qed.
